@@ -131,19 +131,8 @@ func verifC03Directive(cfg c03DirCfg, kind int) {
 			text += c03Indent("ind", cfg.indN) + subKey + " " + subVal + eol
 		}
 		text += tail
-		// the account directive accepts an Account or a Text token for the name
-		if t, ok := c03TokenAt(text, acctOff); !(ok && (t.Type == TokenAccount || t.Type == TokenText)) {
-			tt := -1
-			if ok {
-				tt = int(t.Type)
-			}
-			if cx.knownClass("c03-acct-lexed-as-" + c03TokName(tt)) {
-				return
-			}
-		} else if len(t.Value) != len(acct) {
-			if cx.knownClass("c03-acct-cut-" + c03TokName(int(t.Type))) {
-				return
-			}
+		if cx.knownAcct(text, acctOff, acct, true) {
+			return
 		}
 		j, errs := Parse(text)
 		zzverif.Observe("text", text)
@@ -171,6 +160,7 @@ func verifC03Directive(cfg c03DirCfg, kind int) {
 		// (the deep tier takes the full product: form 4 / 5)
 		form := zzverif.Choice("form", cfg.comForms)
 		fmtCfg, hasFmt := cfg, false
+		var bare c03Sym
 		switch form {
 		case 0, 1, 4:
 			sc := cfg
@@ -184,6 +174,7 @@ func verifC03Directive(cfg c03DirCfg, kind int) {
 			hasFmt = form == 1 || (form == 4 && zzverif.Choice("fmt", 2) == 1)
 		default:
 			s := c03MkSym("sym", zzverif.Choice("symkind", 6), cfg.nSym)
+			bare = s
 			text += s.text
 			wantSym = s.sym
 			hasFmt = form == 3 || (form == 5 && zzverif.Choice("fmt", 2) == 1)
@@ -201,20 +192,11 @@ func verifC03Directive(cfg c03DirCfg, kind int) {
 			wantFmt = f.text
 		}
 		text += tail
-		if symOff >= 0 {
-			// a bare symbol must come out of the lexer as one Commodity or Text token
-			t, ok := c03TokenAt(text, symOff)
-			if !(ok && (t.Type == TokenCommodity || t.Type == TokenText)) {
-				tt := -1
-				if ok {
-					tt = int(t.Type)
-				}
-				if cx.knownClass("c03-symbol-lexed-as-" + c03TokName(tt)) {
-					return
-				}
-			}
+		if symOff >= 0 && cx.knownSymbol(text, symOff, bare) {
+			return
 		}
-		if fmtOff >= 0 && cx.knownTok("subdir", text, fmtOff, TokenText) {
+		// the sub-directive line must come out as one Text token ("format <sample>")
+		if fmtOff >= 0 && cx.knownColonAhead(text, fmtOff) {
 			return
 		}
 		j, errs := Parse(text)
@@ -260,19 +242,8 @@ func verifC03Directive(cfg c03DirCfg, kind int) {
 		text += sym.text + " "
 		amtOff := len(text)
 		text += a.text + eol + tail
-		t, ok := c03TokenAt(text, symOff)
-		if !(ok && (t.Type == TokenCommodity || t.Type == TokenText)) {
-			tt := -1
-			if ok {
-				tt = int(t.Type)
-			}
-			if cx.knownClass("c03-symbol-lexed-as-" + c03TokName(tt)) {
-				return
-			}
-		} else if len(t.Value) != len(sym.sym) {
-			if cx.knownClass("c03-symbol-overrun-" + c03TokName(int(t.Type))) {
-				return
-			}
+		if cx.knownSymbol(text, symOff, sym) {
+			return
 		}
 		if cx.knownAmounts(text, 0, []c03AmtRef{{a, amtOff}}) {
 			return
@@ -326,14 +297,19 @@ func c03DirQuick() c03DirCfg {
 }
 
 func VerifC03Directive() {
-	cfg := c03DirQuick()
 	kind := zzverif.Choice("kind", 7)
 	if kind == 6 { // CRLF for every kind, small leaves
-		cfg = c03DirCfg{nSeg: 2, nChar: 1, nSym: 1, nText: 1, nCmnt: 1, cmnts: []int{-1, 0}, shapes: c03FmtShapes[:2], pShapes: c03SimpleShapes[:1],
-			pForms: []int{0, 3, 11}, pDates: []int{3}, pFocus: 2, comForms: 4, gapN: 1, indN: 1, crlf: 2}
-		kind = zzverif.Choice("crlf.kind", 6)
+		verifC03Directive(c03DirCRLF(), zzverif.Choice("crlf.kind", 6))
+		return
 	}
-	verifC03Directive(cfg, kind)
+	verifC03Directive(c03DirQuick(), kind)
+}
+
+// (a separate function: assigning a struct literal to an existing variable inside a branch
+// loses the slice fields under the executor)
+func c03DirCRLF() c03DirCfg {
+	return c03DirCfg{nSeg: 2, nChar: 1, nSym: 1, nText: 1, nCmnt: 1, cmnts: []int{-1, 0}, shapes: c03FmtShapes[:2], pShapes: c03SimpleShapes[:1],
+		pForms: []int{0, 3, 11}, pDates: []int{3}, pFocus: 2, comForms: 4, gapN: 1, indN: 1, crlf: 2}
 }
 
 // single kinds (development and narrowing down)
